@@ -850,9 +850,13 @@ pub struct Sw {
     pub filter_set_skips_nonmarks: bool,
     /// Anchor format 3 VariationIndex deltas are ignored
     pub anchor_var_ignored: bool,
+    /// A glyph cannot carry a cursive link and a placement at the same time: a value record with a non-zero
+    /// placement applied to the glyph that carries the link (the first glyph of a cursive pair) replaces the link
+    /// by that placement, and a cursive attachment discards the placement its first glyph received before
+    pub cursive_link_excludes_placement: bool,
 }
 
-pub const SW_NAMES: [&str; 12] = [
+pub const SW_NAMES: [&str; 13] = [
     "value:y-advance-drops-whole-record",
     "value:placement-variation-dropped-when-static-placement-zero",
     "markattach:lookup-flags-ignored",
@@ -865,6 +869,7 @@ pub const SW_NAMES: [&str; 12] = [
     "context:nested-context-lookup-is-noop",
     "flags:mark-filtering-set-skips-non-marks",
     "anchor:format3-variation-index-ignored",
+    "cursive:later-or-earlier-placement-on-linked-glyph-lost",
 ];
 
 impl Sw {
@@ -882,6 +887,7 @@ impl Sw {
             9 => self.ctx_nested_context_noop,
             10 => self.filter_set_skips_nonmarks,
             11 => self.anchor_var_ignored,
+            12 => self.cursive_link_excludes_placement,
             _ => false,
         }
     }
@@ -899,6 +905,7 @@ impl Sw {
             9 => self.ctx_nested_context_noop = true,
             10 => self.filter_set_skips_nonmarks = true,
             11 => self.anchor_var_ignored = true,
+            12 => self.cursive_link_excludes_placement = true,
             _ => {}
         }
         self
@@ -976,6 +983,15 @@ impl<'a> Env<'a> {
         if self.sw.pla_delta_needs_static && v(0) == 0 && v(1) == 0 {
             dxp = 0;
             dyp = 0;
+        }
+        if self.sw.cursive_link_excludes_placement
+            && matches!(out.attach, Attach::Cursive { .. })
+            && (v(0) + dxp != 0 || v(1) + dyp != 0 || v(0) != 0 || v(1) != 0)
+        {
+            // the link (stored on this glyph) is replaced by the placement of this record
+            out.attach = Attach::None;
+            out.x_pla = 0;
+            out.y_pla = 0;
         }
         out.x_pla += v(0) + dxp;
         out.y_pla += v(1) + dyp;
@@ -1122,6 +1138,10 @@ impl<'a> Env<'a> {
                                 exit: self.anchor(ex),
                                 entry: self.anchor(en),
                             };
+                            if self.sw.cursive_link_excludes_placement {
+                                outs[j].x_pla = 0;
+                                outs[j].y_pla = 0;
+                            }
                             return Some(i + 1);
                         }
                     }
@@ -1406,6 +1426,35 @@ pub enum Dir {
 ///    moves is the second one, or the first one when the lookup has the RIGHT_TO_LEFT flag);
 ///  * mark: origin(mark) + mark anchor = origin(base) + base anchor, independent of advances in between.
 pub fn pen_positions(advances: &[i32], outs: &[PosOut], dir: Dir) -> Vec<(i32, i32)> {
+    pen_positions_reading(advances, outs, dir, false)
+}
+
+/// Is there a glyph that is positioned by a cursive attachment (the second glyph of a pair, or the first one under
+/// the RIGHT_TO_LEFT flag) and also carries a placement of its own? Only then do the two readings of
+/// `pen_positions_reading` differ.
+pub fn cursive_child_with_placement(outs: &[PosOut]) -> bool {
+    let n = outs.len();
+    outs.iter().enumerate().any(|(p, o)| match o.attach {
+        Attach::Cursive { next, rtl_flag, .. } if next < n && next > p => {
+            let own = |k: usize| outs[k].x_pla != 0 || outs[k].y_pla != 0;
+            own(next) || (rtl_flag && own(p))
+        }
+        _ => false,
+    })
+}
+
+/// `pen_positions` under one of two readings of "a cursively attached glyph that also carries a placement". The
+/// specification describes the attachment (anchors aligned) and the value record (glyph moved) separately and does not
+/// say how they combine; per-glyph output that keeps a link and a placement does not record which came first.
+///  * `child_keeps_placement == false`: the attachment defines the position, the anchors coincide (what HarfBuzz
+///    produces when the placement was made BEFORE the cursive lookup: the x offset is folded into the advances,
+///    `x_advance = exit_x + x_offset`, and the cross-stream offset of the attached glyph is assigned);
+///  * `child_keeps_placement == true`: the placement moves the glyph away from the aligned position (what HarfBuzz
+///    produces when the value record comes AFTER the cursive lookup: `x_offset += xPlacement`, `y_offset +=
+///    yPlacement`, attach_type / attach_chain unchanged).
+/// The box of the glyph (where the pen continues) is the same in both.
+pub fn pen_positions_reading(advances: &[i32], outs: &[PosOut], dir: Dir, child_keeps_placement: bool) -> Vec<(i32, i32)> {
+    let keep = |v: i32| if child_keeps_placement { v } else { 0 };
     let n = outs.len();
     let mut second_of: Vec<Option<usize>> = vec![None; n];
     for (p, o) in outs.iter().enumerate() {
@@ -1422,7 +1471,7 @@ pub fn pen_positions(advances: &[i32], outs: &[PosOut], dir: Dir) -> Vec<(i32, i
         let ox;
         if let Some(p) = second_of[k] {
             if let Attach::Cursive { exit, entry, .. } = outs[p].attach {
-                fx[k] = fx[p] + exit.0 - entry.0;
+                fx[k] = fx[p] + exit.0 - entry.0 + keep(outs[k].x_pla);
             }
             ox = fx[k] - outs[k].x_pla;
         } else {
@@ -1439,22 +1488,23 @@ pub fn pen_positions(advances: &[i32], outs: &[PosOut], dir: Dir) -> Vec<(i32, i
     }
     // y: resolve cursive parents
     let mut fy: Vec<Option<i32>> = vec![None; n];
-    fn resolve(k: usize, outs: &[PosOut], second_of: &[Option<usize>], fy: &mut Vec<Option<i32>>, depth: usize) -> i32 {
+    fn resolve(k: usize, outs: &[PosOut], second_of: &[Option<usize>], fy: &mut Vec<Option<i32>>, depth: usize, keep_own: bool) -> i32 {
         if let Some(v) = fy[k] {
             return v;
         }
+        let own = if keep_own { outs[k].y_pla } else { 0 };
         let mut v = outs[k].y_pla;
         if depth <= outs.len() {
             if let Some(p) = second_of[k] {
                 if let Attach::Cursive { rtl_flag: false, exit, entry, .. } = outs[p].attach {
-                    v = resolve(p, outs, second_of, fy, depth + 1) + exit.1 - entry.1;
+                    v = resolve(p, outs, second_of, fy, depth + 1, keep_own) + exit.1 - entry.1 + own;
                     fy[k] = Some(v);
                     return v;
                 }
             }
             if let Attach::Cursive { next, rtl_flag: true, exit, entry } = outs[k].attach {
                 if next < outs.len() {
-                    v = resolve(next, outs, second_of, fy, depth + 1) + entry.1 - exit.1;
+                    v = resolve(next, outs, second_of, fy, depth + 1, keep_own) + entry.1 - exit.1 + own;
                 }
             }
         }
@@ -1462,7 +1512,7 @@ pub fn pen_positions(advances: &[i32], outs: &[PosOut], dir: Dir) -> Vec<(i32, i
         v
     }
     for k in 0..n {
-        resolve(k, outs, &second_of, &mut fy, 0);
+        resolve(k, outs, &second_of, &mut fy, 0, child_keeps_placement);
     }
     let mut res: Vec<(i32, i32)> = (0..n).map(|k| (fx[k], fy[k].unwrap())).collect();
     for k in 0..n {
@@ -1530,6 +1580,12 @@ impl LSw {
 /// Operational form (advance + offset per glyph, then accumulation) with deviation switches. With all
 /// switches off it must agree with `pen_positions` (the harness asserts this on every case).
 pub fn pen_positions_sw(advances: &[i32], outs: &[PosOut], dir: Dir, sw: LSw) -> Vec<(i32, i32)> {
+    pen_positions_sw_reading(advances, outs, dir, sw, false)
+}
+
+/// `pen_positions_sw` under the reading `child_keeps_placement` (see `pen_positions_reading`). The deviation
+/// switches describe algorithms of the implementation under test and are the same under both readings.
+pub fn pen_positions_sw_reading(advances: &[i32], outs: &[PosOut], dir: Dir, sw: LSw, child_keeps_placement: bool) -> Vec<(i32, i32)> {
     let n = outs.len();
     let mut hadv: Vec<i32> = (0..n).map(|k| advances[k] + outs[k].x_adv).collect();
     let mut xoff = vec![0i32; n];
@@ -1567,7 +1623,8 @@ pub fn pen_positions_sw(advances: &[i32], outs: &[PosOut], dir: Dir, sw: LSw) ->
                 match dir {
                     Dir::Ltr => {
                         hadv[p] = exit.0 + xoff[p];
-                        let d = entry.0 + xoff[next] + between;
+                        // a placement made after the attachment is not folded into the advances
+                        let d = entry.0 + between + if child_keeps_placement { 0 } else { xoff[next] };
                         hadv[next] -= d;
                         xoff[next] -= d;
                     }
@@ -1575,7 +1632,7 @@ pub fn pen_positions_sw(advances: &[i32], outs: &[PosOut], dir: Dir, sw: LSw) ->
                         let d = exit.0 + xoff[p];
                         hadv[p] -= d;
                         xoff[p] -= d;
-                        hadv[next] = entry.0 + xoff[next] - between;
+                        hadv[next] = entry.0 - between + if child_keeps_placement { 0 } else { xoff[next] };
                     }
                 }
             }
@@ -1617,14 +1674,14 @@ pub fn pen_positions_sw(advances: &[i32], outs: &[PosOut], dir: Dir, sw: LSw) ->
         for p in 0..n {
             if let Attach::Cursive { next, rtl_flag: false, exit, entry } = outs[p].attach {
                 if next < n && next > p {
-                    yoff[next] = yoff[p] + exit.1 - entry.1;
+                    yoff[next] = yoff[p] + exit.1 - entry.1 + if child_keeps_placement { outs[next].y_pla } else { 0 };
                 }
             }
         }
         for p in (0..n).rev() {
             if let Attach::Cursive { next, rtl_flag: true, exit, entry } = outs[p].attach {
                 if next < n && next > p {
-                    yoff[p] = yoff[next] + entry.1 - exit.1;
+                    yoff[p] = yoff[next] + entry.1 - exit.1 + if child_keeps_placement { outs[p].y_pla } else { 0 };
                 }
             }
         }
